@@ -9,7 +9,7 @@ from harness import c01_steps, common, opcheck, ops, tlib
 
 PROPERTY = "C03"
 BOUNDS = ("catalogue documents; primitive steps as in C01 (quick: a subset of payloads); emitted steps: every operation "
-          "kind of the transform API with range ends symbolic and payload index symbolic")
+          "kind of the transform API with range ends symbolic and payload index symbolic; replace-around steps also with an EMPTY gap")
 ASSUMPTIONS = ["token identity outside the replaced ranges is asserted up to untyped close tokens; map-less steps (marks, attrs) may change marks/attrs of tokens but not their kind, text unit or type"]
 
 P = opcheck.P
